@@ -6,3 +6,7 @@ import MtailVerif.Props.C16
 #print axioms MtailVerif.C16.buffer_shape
 #print axioms MtailVerif.C16.every_read_is_offered_room
 #print axioms MtailVerif.C16.streams_skeletons
+#print axioms MtailVerif.C16.f_logstream_reader_skeletons
+#print axioms MtailVerif.C16.f_logstream_filestream_skeletons
+#print axioms MtailVerif.C16.f_tailer_tail_skeletons
+#print axioms MtailVerif.C16.f_logstream_logstream_skeletons
